@@ -138,6 +138,48 @@ def cases_for(H, rng):
     return gpos, cs
 
 
+def label_twins(H, rng):
+    """the same network under other kinds of node labels: "whatever its labels" includes numbers that are not Python ints
+    (numpy integers, whole floats - equal to small ints as dict keys), tuples, negative and mixed labels"""
+    import numpy as np, xgi
+    nodes = list(H.nodes)
+    perm = list(range(len(nodes))); rng.shuffle(perm)
+    kinds = {
+        "numpy.int64 0..n-1": lambda i: np.int64(i),
+        "float 0..n-1": lambda i: float(i),
+        "numpy.int64, shuffled": lambda i: np.int64(perm[i]),
+        "tuples": lambda i: (i, "t"),
+        "negative ints": lambda i: -1 - i,
+        "mixed str / int": lambda i: (f"s{i}" if i % 2 else i + 100),
+    }
+    for kind in rng.sample(sorted(kinds), 2):
+        f = {n: kinds[kind](i) for i, n in enumerate(nodes)}
+        try:
+            if isinstance(H, xgi.SimplicialComplex):
+                H2 = xgi.SimplicialComplex([[f[n] for n in ms] for ms in H.edges.maximal().members()])
+            else:
+                H2 = xgi.Hypergraph([[f[n] for n in ms] for ms in H.edges.members() if ms])
+            H2.add_nodes_from(f.values())
+        except Exception:  # noqa: BLE001 - a label kind the constructors refuse is not this property's business
+            continue
+        yield kind, H2
+
+
+def layouts_only(H, rng):
+    import xgi
+    nodes = list(H.nodes)
+    for name in LAYOUTS:
+        f = getattr(xgi, name)
+        try:
+            pos = f(H, seed=rng.randrange(100)) if "seed" in f.__code__.co_varnames[:f.__code__.co_argcount] else f(H)
+        except Exception as e:  # noqa: BLE001
+            return f"{name} raised {type(e).__name__}: {e}"
+        d = check_positions(name, pos, nodes)
+        if d:
+            return d
+    return None
+
+
 def run(v):
     proof = base.proof_stage(v, PROP)
     thorough = C.tier() == "thorough"
@@ -163,6 +205,19 @@ def run(v):
             if d:
                 failures.append((f"{PROP}:{d.split(':')[0][:60]}", {"what": d, "class": type(H).__name__, "history": HC.jsonable(r["ops"])}))
                 continue
+            # the layouts once more on the same network under other kinds of labels
+            for kind, H2 in label_twins(H, rng):
+                try:
+                    with warnings.catch_warnings():
+                        warnings.simplefilter("ignore")
+                        d2 = layouts_only(H2, rng)
+                except Exception as e:  # noqa: BLE001
+                    d2 = f"oracle raised {type(e).__name__}: {e}"
+                if d2:
+                    failures.append((f"{PROP}:labels:{d2.split(':')[0][:50]}",
+                                     {"what": f"with node labels presented as {kind}: {d2}", "class": type(H).__name__,
+                                      "history": HC.jsonable(r["ops"]), "label_kind": kind}))
+                    break
             try:
                 with warnings.catch_warnings():
                     warnings.simplefilter("ignore")
